@@ -26,6 +26,11 @@ def run(ctx):
                         nontrivial=r"^(pb|pr|fx) ")
     sn = ctx.correspond("h_equiv", "Equiv", tag="node", env={"VERIF_EQUIV_MODE": "node"},
                         nontrivial=r"^(bc|rb|cert|start) ")
+    # C12 rests on the log: "every message is recorded durably before it is published and the record re-arms the filter
+    # on restart". The WAL's own stream (C11) is replayed here as well: an acknowledged record that does not come back,
+    # or a refused Append that leaves bytes behind, disarms the filter after the next restart.
+    ctx.correspond("h_wal", "Wal", tag="wal", nontrivial=r"^(append|all|purge|open|refuse|walentry) ",
+                   oracle_filter=r"ACKED-LOST|REFUSED-APPEND|WALENTRY-NOT-INTACT|ACK-BEFORE-FSYNC|CORRUPT|OLDFILE")
     spaces = []
     try:
         for l in open(sf.get("log", "/dev/null")):
